@@ -100,7 +100,12 @@ var cur atomic.Pointer[Sched]
 // Current returns the scheduler of the execution in progress (nil outside one).
 func Current() *Sched { return cur.Load() }
 
-var processBase = time.Now()
+// processBase is the virtual time of clock 0. It lies ten years before the start of the process: code that is
+// not transformed (crypto/tls) takes deadlines from the wall clock ("now + 5s" around a close_notify, "now"
+// after it); measured on the virtual clock those must not depend on how long the process has been running, so
+// they all lie in the far future: a deadline taken from the wall clock expires only when nothing else can
+// happen any more, which is what "a few real seconds" means to a model without wall-clock time.
+var processBase = time.Now().Add(-10 * 365 * 24 * time.Hour)
 
 // LastActivity is read by the watchdog.
 var LastActivity atomic.Int64
@@ -496,7 +501,7 @@ func SetThreadName(n string) {
 
 func (s *Sched) now() time.Time { return processBase.Add(s.clock) }
 
-// Now is the virtual time: the real time at process start plus the virtual offset.
+// Now is the virtual time: processBase plus the virtual offset.
 func Now() time.Time {
 	if s := Current(); s != nil {
 		return s.now()
